@@ -6,7 +6,7 @@ namespace Props
 
 theorem engine_sync_tie :
     Const.BAB_SHARED_FIELDS = Eng3.sharedFields ∧ Const.BAB_SYNC_IMPORTS = Eng3.syncImports ∧
-    Const.BAB_SYNC_OPS = Eng3.syncOps ∧ Const.BAB_SYNC_OTHER = [] :=
+    Const.BAB_SYNC_OPS = Eng3.syncOps ∧ Const.BAB_SYNC_OTHER = [] ∧ Const.BAB_SHARED_TYPES = Eng3.sharedTypes :=
   Eng3.sync_tie
 
 end Props
